@@ -16,6 +16,10 @@ BIN = "apicov"
 
 def run(ck, cov_mode):
     mode = "public-api-coverage"
+    # the bin is (re)built here as well, so the oracle never runs a stale binary if "apicov" is missing from the caller's BINS
+    # (a no-op when the caller already built it)
+    if not ck.cargo_build([BIN]):
+        return
     cases = ck.harness(BIN, [cov_mode])
     if not cases:
         ck.oblige("correspondence %s produced cases" % mode, False, "harness produced no cases (apicov %s)" % cov_mode)
